@@ -87,7 +87,7 @@ Lemma wloop_S f x w acc k : get_worker x w = Some k ->
             let pf := p_popfail pq + 1 in
             if pf <? running
             then (upd_pool x1 p (p_with_popfail pf), acc, WYield)
-            else (upd_pool x1 p (p_with_popfail 0), acc, WSpin)
+            else wloop f (set_clockp (upd_pool x1 p (p_with_popfail 0)) (sat_add64 (pw_clock x1) 1000000)) w acc
       end
   end.
 Proof.
